@@ -9,13 +9,16 @@ import (
 	"time"
 
 	"github.com/dfklegend/cell2/apimapper/apientry"
+	"github.com/dfklegend/cell2/node/app"
 	"github.com/dfklegend/cell2/node/client/impls"
 	cs "github.com/dfklegend/cell2/node/client/session"
+	"github.com/dfklegend/cell2/node/service"
 )
 
 // Val is a typed JSON value as the C10 model sees it:
-//   int  Go int (what a handler stores locally)      num  float64 (what JSON decoding yields)
-//   str  string token   bool   null   list
+//
+//	int  Go int (what a handler stores locally)      num  float64 (what JSON decoding yields)
+//	str  string token   bool   null   list
 type Val struct {
 	Kind string
 	I    int64
@@ -114,9 +117,33 @@ type SessReply struct {
 
 type absent struct{}
 
+// watchClose registers (once per connection) a per-connection close handler recording its view
+func (h *H) watchClose(ctx *impls.HandlerContext) {
+	s := ctx.ActorContext.Actor().(*Svc)
+	id := ctx.Session.GetNetId()
+	n := h.n
+	n.sessMu.Lock()
+	_, done := n.closeWatched[id]
+	n.closeWatched[id] = true
+	n.sessMu.Unlock()
+	if done {
+		return
+	}
+	impls.AddOnSessionOnClose(s.NodeService, id, func(_ *service.NodeService, fs *cs.FrontSession) {
+		n.sessMu.Lock()
+		n.closeView2[fs.GetNetId()] = fs.ToJson()
+		n.sessMu.Unlock()
+	})
+}
+
 // FSet (front only): fs.Set(K, V) - or fs.Bind for the reserved key _ID with a string.
 func (h *H) FSet(ctx *impls.HandlerContext, a *Arg, cb apientry.HandlerCBFunc) {
 	h.n.logInvocation(ctx, "sentinel", 0)
+	h.watchClose(ctx)
+	// the IServerSession API a handler written for both sides would use: no-ops on the front
+	ctx.Session.PushSession(func(error) {})
+	ctx.Session.QuerySession(func(error) {})
+	_ = ctx.Session.IsSessionDataReady()
 	if a.K == cs.KeyUId && a.V != nil && a.V.Kind == "str" {
 		ctx.Session.Bind(a.V.S)
 	} else {
@@ -149,6 +176,23 @@ func (h *H) Open(ctx *impls.HandlerContext, a *Arg, cb apientry.HandlerCBFunc) {
 	apientry.CheckInvokeCBFunc(cb, nil, h.reply(ctx, s, "open", a))
 }
 
+// Keep (back-ends): ANSWERS FIRST, then keeps the BackSession ProcessForwardMsg built from the
+// envelope (ctx.Session) as handle H, so that the driver can go on using it - a handler that
+// continues to work with its session after having responded.
+func (h *H) Keep(ctx *impls.HandlerContext, a *Arg, cb apientry.HandlerCBFunc) {
+	s := h.n.logInvocation(ctx, "keep", a.T)
+	apientry.CheckInvokeCBFunc(cb, nil, h.reply(ctx, s, "open", a))
+	bs, ok := ctx.Session.(*cs.BackSession)
+	if !ok {
+		return
+	}
+	h.n.sessMu.Lock()
+	if h.n.bsTab[a.H] == nil {
+		h.n.bsTab[a.H] = &backHandle{inst: InstOf(s.name), bs: bs}
+	}
+	h.n.sessMu.Unlock()
+}
+
 // backHandle is a back-session kept alive between driver operations.
 type backHandle struct {
 	inst int64
@@ -160,6 +204,9 @@ func (n *Node) BackNew(h, inst int64, netId uint32) error {
 	s := n.Svc(inst)
 	return s.Exec(func() {
 		bs := cs.NewBackSession(s.NodeService, "gate-1", netId, "")
+		if h%2 == 1 {
+			bs = cs.CloneBackSession(bs) // same (front, connection, id), nothing else
+		}
 		n.sessMu.Lock()
 		n.bsTab[h] = &backHandle{inst: inst, bs: bs}
 		n.sessMu.Unlock()
@@ -175,12 +222,18 @@ func (n *Node) handle(h int64) *backHandle {
 // HasBack reports whether handle h exists.
 func (n *Node) HasBack(h int64) bool { return n.handle(h) != nil }
 
-// ClearBacks forgets every back-session handle.
+// ClearBacks forgets every back-session handle and every recorded close view.
 func (n *Node) ClearBacks() {
 	n.sessMu.Lock()
 	n.bsTab = map[int64]*backHandle{}
+	n.closeView = map[uint32]string{}
+	n.closeView2 = map[uint32]string{}
+	n.closeWatched = map[uint32]bool{}
 	n.sessMu.Unlock()
 }
+
+// BackNetId is the connection id a handle addresses.
+func (n *Node) BackNetId(h int64) uint32 { return n.handle(h).bs.NetId }
 
 // BackSet runs bs.Set(k, v) (bs.Bind for _ID with a string) in the owning service.
 func (n *Node) BackSet(h int64, k string, v *Val) error {
@@ -239,7 +292,7 @@ func (n *Node) BackQuery(h int64) (cbErr error, err error) {
 
 // ScriptStep is one step of a pipelined back-session script.
 type ScriptStep struct {
-	Kind string // "set" | "push" | "query"
+	Kind string // "set" | "push" | "query" | "kick"
 	K    string
 	V    *Val
 }
@@ -256,6 +309,15 @@ func (n *Node) BackScript(h int64, steps []ScriptStep) (acks []bool, err error) 
 	}
 	done := make(chan res, len(steps)+1)
 	nacks := 0
+	for _, st := range steps {
+		if st.Kind == "kick" {
+			// everything the script sends must be in the front's mailbox before the front handles the
+			// kick: the messages behind it are then handled in the same mailbox run, i.e. between
+			// the network-level Close and the posted RemoveSession
+			n.BusyFront(8 * time.Millisecond)
+			break
+		}
+	}
 	if err = n.Svc(bh.inst).Exec(func() {
 		for _, st := range steps {
 			switch st.Kind {
@@ -273,6 +335,12 @@ func (n *Node) BackScript(h int64, steps []ScriptStep) (acks []bool, err error) 
 				i := nacks
 				nacks++
 				bh.bs.QuerySession(func(e error) { done <- res{i, e} })
+			case "kick":
+				if h%2 == 0 {
+					bh.bs.Kick()
+				} else {
+					app.Kick(n.Svc(bh.inst).NodeService, bh.bs.ServerId, bh.bs.NetId, nil)
+				}
 			}
 		}
 	}); err != nil {
